@@ -14,6 +14,13 @@ cd "$ROOT"
 tier=${1:-quick}
 shift || true
 mkdir -p "$ROOT/bin" "$ROOT/evidence"
+# tools/mutate.sh hands in mutated library sources through VERIF_OVERLAY (a go build overlay file) and a
+# scratch directory for the binary through VERIF_BIN; both must be honoured or a mutation run silently
+# tests the unchanged tree
+ov=()
+[ -n "${VERIF_OVERLAY:-}" ] && ov=(-overlay "$VERIF_OVERLAY")
+bin="${VERIF_BIN:-$ROOT/bin}"
+mkdir -p "$bin"
 built=0
 want_jsi=0
 [ "$tier" = thorough ] && want_jsi=1
@@ -30,10 +37,20 @@ if [ "$want_jsi" = 1 ] && [ -z "${C05_NO_JSONITER:-}" ]; then
     cp "$ROOT/go.sum" "$scratch/go.sum" 2>/dev/null
     echo "require github.com/json-iterator/go $jv" >> "$scratch/go.mod"
     [ -n "$rv" ] && echo "require github.com/modern-go/reflect2 $rv" >> "$scratch/go.mod"
-    printf '{"Replace": {"%s": "%s"}}\n' "$ROOT/props/c05/zz_jsoniter.go" "$ROOT/props/c05/jsoniter/codec_jsoniter.go.txt" > "$scratch/o.json"
-    if go build -modfile="$scratch/go.mod" -overlay "$scratch/o.json" -o "$ROOT/bin/c05" ./props/c05 2> "$ROOT/bin/c05.jsoniter.buildlog"; then
+    if [ -n "${VERIF_OVERLAY:-}" ]; then
+      # one -overlay per build: merge the caller's replacements into ours
+      python3 - "$VERIF_OVERLAY" "$ROOT/props/c05/zz_jsoniter.go" "$ROOT/props/c05/jsoniter/codec_jsoniter.go.txt" > "$scratch/o.json" <<'PY'
+import json, sys
+o = json.load(open(sys.argv[1]))
+o.setdefault("Replace", {})[sys.argv[2]] = sys.argv[3]
+json.dump(o, sys.stdout)
+PY
+    else
+      printf '{"Replace": {"%s": "%s"}}\n' "$ROOT/props/c05/zz_jsoniter.go" "$ROOT/props/c05/jsoniter/codec_jsoniter.go.txt" > "$scratch/o.json"
+    fi
+    if go build -modfile="$scratch/go.mod" -overlay "$scratch/o.json" -o "$bin/c05" ./props/c05 2> "$bin/c05.jsoniter.buildlog"; then
       # the cached versions may not run under the installed Go: probe in a process of its own
-      if C05_JSONITER_SMOKE=1 "$ROOT/bin/c05" > "$ROOT/bin/c05.jsoniter.smoke" 2>&1; then
+      if C05_JSONITER_SMOKE=1 "$bin/c05" > "$bin/c05.jsoniter.smoke" 2>&1; then
         built=1
       else
         export C05_JSONITER_SKIPPED="json-iterator $jv with reflect2 ${rv:-?} builds offline but faults at run time under $(go version | cut -d' ' -f3) (smoke test, see bin/c05.jsoniter.smoke)"
@@ -45,8 +62,8 @@ if [ "$want_jsi" = 1 ] && [ -z "${C05_NO_JSONITER:-}" ]; then
   fi
 fi
 if [ "$built" = 0 ]; then
-  if ! go build -o "$ROOT/bin/c05" ./props/c05 2> "$ROOT/bin/c05.buildlog"; then
-    echo "HARNESS-ERROR build of C05 failed (see below)"; head -50 "$ROOT/bin/c05.buildlog"; exit 2
+  if ! go build "${ov[@]+"${ov[@]}"}" -o "$bin/c05" ./props/c05 2> "$bin/c05.buildlog"; then
+    echo "HARNESS-ERROR build of C05 failed (see below)"; head -50 "$bin/c05.buildlog"; exit 2
   fi
 fi
-exec "$ROOT/bin/c05" -tier "$tier" "$@"
+exec "$bin/c05" -tier "$tier" "$@"
